@@ -42,10 +42,10 @@ theorem coherent_transfer (sem : Sem) (s s' : CState)
 /-- every event of the lock machine that C05 allows (memmap_ apart) keeps the caches coherent, provided it does not
 restructure a tensordict that a cache would hand out again -/
 theorem base_preserves (sem : Sem) (s : CState) (hinv : CInv sem s) (e : Ev) (hok : Props.C05.EvOk e)
-    (hnm : notMemmap e = true) (hres : ∀ o, o ∈ mutated e → ¬ IsResult s o) :
+    (hnm : notMemmap e = true) (hres : ∀ o, o ∈ mutated s.heap e → ¬ IsResult s o) :
     CInv sem (cstep sem s (.base e)).1 := by
   have hI : Inv (step s.base e).1.heap := Props.C05.closed_invariant s.base hinv.inv e hok
-  have facts : StepFacts s.heap (step s.base e).1.heap (erasedBy s.base e) (mutated e) := by
+  have facts : StepFacts s.heap (step s.base e).1.heap (erasedBy s.base e) (mutated s.heap e) := by
     unfold step
     cases ht : e.target with
     | none => exact facts_stepLive s.base hinv.inv e hok hnm (fun i hi => by rw [ht] at hi; cases hi)
@@ -360,7 +360,7 @@ invalidation is a separate `fix:` and is checked by the monitor, not modelled), 
 none of them may restructure a tensordict that a cache would hand out again (the shared-result defect, see
 `shared_result_counterexample`). -/
 def CEvOk (s : CState) : CEv → Prop
-  | .base e => Props.C05.EvOk e ∧ notMemmap e = true ∧ ∀ o, o ∈ mutated e → ¬ IsResult s o
+  | .base e => Props.C05.EvOk e ∧ notMemmap e = true ∧ ∀ o, o ∈ mutated s.heap e → ¬ IsResult s o
   | .read i _ => live s.heap i = true
   | .rebind i _ _ => ¬ IsResult s i
 
